@@ -286,6 +286,63 @@ def o_sequence(spec):
     return {"classes": ["with_exp"] if any(m[0] == "exp" for m in spec["gates"][0]["mods"]) else [], "nontrivial": len(set(names)) >= 2}
 
 
+# ---------------------------------------------------------------- re-parametrising a modified gate whose matrix was already read
+
+
+@st.composite
+def reparam_cases(draw, tier):
+    kinds = draw(st.lists(st.sampled_from(["dag", "c", "ipow", "exp", "c", "dag"]), min_size=1, max_size=3))
+    if kinds.count("exp") > 1:
+        kinds = [k for k in kinds if k != "exp"] + ["exp"]
+    pool = ["RX", "RY", "GPi2", "XX", "YY", "MS"] if "exp" in kinds else ["RX", "RY", "RZ", "PHASE", "GPi", "GPi2", "RH", "U3", "XX", "ZZ", "CPHASE", "XY", "MS"]
+    nm = draw(st.sampled_from(pool))
+    k = cgen.TABLE[nm][0]
+    mods = []
+    for kd in kinds:
+        m = draw(_mod(kd, 4 - k))
+        if m[0] == "c":
+            k += m[1]
+        if m[0] == "pow" and (m[1] < 0 and (k >= 3 or nm == "U3" or any(x[0] == "pow" for x in mods)) or sum(1 for x in mods if x[0] == "pow") >= 1 and nm == "U3"):
+            m = ["pow", 2]
+        mods.append(m)
+    np_ = cgen.TABLE[nm][1]
+    tuples = [[draw(cgen.angles()) for _ in range(np_)] for _ in range(draw(st.integers(2, 3)))]
+    bindable = all(m[0] in ("dag", "c") for m in mods)
+    return {"g": nm, "mods": mods, "tuples": tuples, "reads": [draw(st.booleans()) for _ in tuples],
+            "how": [draw(st.sampled_from(["replace", "bind"] if bindable else ["replace"])) for _ in tuples]}
+
+
+def o_reparam(spec):
+    nm, mods = spec["g"], spec["mods"]
+    g = cgen.build_gate({"g": nm, "p": spec["tuples"][0], "mods": mods})
+    syms = [sympy.Symbol("s%d" % i) for i in range(len(spec["tuples"][0]))]
+    read_before = False
+    nt = False
+    for i, ps in enumerate(spec["tuples"]):
+        if i > 0:
+            if spec["how"][i] == "bind":
+                sg = must(lambda: g.replace_params(tuple(syms)), "replace_params(symbols)")
+                if spec["reads"][i]:
+                    must(lambda: sg.matrix, "symbolic matrix")
+                g = must(lambda: sg.bind(dict(zip(syms, ps))), "bind")
+            else:
+                g = must(lambda: g.replace_params(tuple(ps)), "replace_params")
+            nt = nt or read_before
+        require(tuple(float(x) for x in g.params) == tuple(float(x) for x in ps), lambda: f"params {g.params} after re-parametrising with {ps}")
+        fresh = cgen.build_gate({"g": nm, "p": ps, "mods": mods})
+        require(must(lambda: g == fresh, "gate =="), lambda: f"re-parametrised gate {g} != modifiers applied to the gate built with the new parameters {fresh}")
+        if spec["reads"][i] or i == len(spec["tuples"]) - 1:
+            A = must(lambda: _npm(g), f"matrix of {g}")
+            R = cgen.ref_gate_matrix({"g": nm, "p": ps, "mods": mods})
+            if not np.all(np.isfinite(A)):
+                return {"inconclusive": "non-finite"}
+            tol = 1e-7 * max(1.0, float(np.max(np.abs(R))))
+            require(A.shape == R.shape and np.allclose(A, R, atol=tol),
+                    lambda: f"{g} obtained by {spec['how'][i]} (step {i}) has the matrix of other parameters: differs from its definition by {ref.maxdiff(A, R):.3g}")
+            read_before = True
+    return {"classes": ["with_exp"] if any(m[0] == "exp" for m in mods) else [], "nontrivial": nt}
+
+
 PAIRS = ["pair:%s>%s" % (a, b) for a in KINDS for b in KINDS]
 
 SUBCHECKS = [
@@ -297,4 +354,7 @@ SUBCHECKS = [
 SUBCHECKS.append(SubCheck("evaluation_history", o_sequence, strategy=sequences, examples=(60, 400), shards=(6, 12), fork_timeout=60,
                           rule="2..4 gates sharing the same modifier chain and parameters but different bases, evaluated one after another in one process "
                                "(first one again at the end): each matrix equals the closed-form reference regardless of what was evaluated before"))
+SUBCHECKS.append(SubCheck("reparam_history", o_reparam, strategy=reparam_cases, examples=(60, 400), shards=(6, 12), fork_timeout=60,
+                          rule="a modified parametric gate re-parametrised 1-2 times (replace_params, or bind of a symbolic instance) with its matrix read in between: "
+                               "each gate equals the modifiers applied to the freshly built gate and has the closed-form matrix of its own parameters; non-trivial = re-parametrised after a matrix read"))
 SUBCHECKS[0].expected_classes = PAIRS + ["fractional", "custom_base"]
